@@ -78,11 +78,44 @@ def r1_who_may_call(ctx) -> None:
             else:
                 r.violation("C13.R1", f.qual, stmt_head(x), "the 'applied' flag does not reflect the gate outcome (applied ids/tracking would lie)", f"{f.module.relpath}:{x.lineno}")
     pa = prog.func(PIPE + ".ProcessingPipeline.apply")
-    src = unparse(pa.node)
-    if "applied = item.apply(rule)" in src and "self.applied.append(applied)" in src and "if applied and (itid := item.identifier):" in src and "self.applied_ids.add(itid)" in src:
-        r.ok("C13.R1", pa.qual, "applied/applied_ids recorded per item, in order, from the item's own answer", pa.loc)
+    # ProcessingPipeline.apply interpreted (sa.tabulate, Proxy) on stand-in items that answer whether they were applied
+    from collections import defaultdict as _dd
+    from ..tabulate import Proxy, call_method, Raised
+    PP = PIPE + ".ProcessingPipeline"
+    order: list = []
+
+    class _Item:
+        def __init__(self, ident, ans): self.identifier, self.ans = ident, ans
+        def apply(self, rule, *a, **k):
+            order.append(self.identifier)
+            return self.ans
+
+    items = [_Item("a", True), _Item(None, True), _Item("c", False), _Item("", True), _Item("e", True)]
+    env = {"defaultdict": _dd}
+    stale = {"old": 1}
+    me = Proxy(prog, PP, env, {"items": items, "applied": [True], "applied_ids": {"zz"}, "field_name_applied_ids": _dd(set, {"f": {"zz"}}), "field_mappings": "stale", "state": stale,
+                               "postprocessing_items": [], "finalizers": [], "vars": {}}, interp_kwargs={"max_steps": 6000})
+    rule_obj = object()
+    given = {"k": "v"}
+    try:
+        ret = call_method(prog, PP, "apply", me, env, rule_obj, given, interp_kwargs={"max_steps": 6000})
+        problems = []
+        if order != ["a", None, "c", "", "e"]:
+            problems.append(f"items applied in order {order}")
+        if list(me.applied) != [True, True, False, True, True]:
+            problems.append(f"applied = {list(me.applied)} instead of the items' own answers [True, True, False, True, True]")
+        if set(me.applied_ids) != {"a", "e"}:
+            problems.append(f"applied_ids = {sorted(map(str, me.applied_ids))} instead of the identifiers of the applied items ['a', 'e']")
+        if ret is not rule_obj:
+            problems.append(f"returns {ret!r} instead of the rule")
+        if me.state != given or me.state is given or me.state is stale:
+            problems.append(f"state = {me.state!r} instead of a copy of the given state")
+    except Raised as ex:
+        problems = [f"raises {ex}"]
+    if not problems:
+        r.ok("C13.R1", pa.qual, "applied/applied_ids recorded per item, in order, from the item's own answer (interpreted on five stand-in items)", pa.loc)
     else:
-        r.violation("C13.R1", pa.qual, "applied = item.apply(rule); self.applied.append(applied); if applied and (itid := item.identifier): self.applied_ids.add(itid)", "per-item application bookkeeping altered", pa.loc)
+        r.violation("C13.R1", pa.qual, f"applied = item.apply(rule); self.applied.append(applied); if applied and (itid := item.identifier): self.applied_ids.add(itid) — {problems[0]}", "per-item application bookkeeping altered", pa.loc)
     r.floor("C13.R1", 7)
 
 
